@@ -23,9 +23,17 @@ Proved here, for every machine state / dictionary / fuel:
   whole: inside it the session stays an extension of the session at the `#(` through every step the token loop
   can take; when it closes, the session is the one at the `#(` with the code extended by one literal per result
   — the opcodes the compiler emits for the same values written as literals — and only constants added to the
-  dictionary. This is "P[#( e #)] = P[values of e]" step by step; the composition into a statement about the two
-  token lists (which needs the syntactic matching of `#(`/`#)`, themselves dictionary words) is decided by the
-  correspondence and the inline oracle.
+  dictionary.
+* `meta_block_is_its_values` — the composition: "P[#( e #)] behaves like P[values of e]" for the token loop. From any
+  session outside a meta block, with the `#(` at any position of the source: if the block gets closed (followed
+  semantically, by the depth of the saved contexts — `#(` and `#)` are dictionary words, not syntax) and is clean
+  (defines no constant, declares no variable, leaves the return/loop/builder stacks alone — the one thing the block
+  theorems cannot know), then reading the rest of the source after the block and reading it after the block's values
+  written as literals give the same answer, the same error, and sessions equal in everything but debug map,
+  last-token marker, meter, stop flag and what the block printed (Proofs/SessionInline.lean; the congruence of the
+  session model up to token positions: Proofs/SessionGhostD.lean, of the compiler: Proofs/CompileTok.lean).
+  Hypotheses: recording off and no instruction limit (both are observable differences: the block's execution is logged
+  and metered). Still decided per program only: blocks that define constants (`P[values]` has no counterpart for them).
 * `eval_is_compile_then_run` — for an interpreter at rest, every source and every fuel: `eval src` gives the same
   answer and the same session as `compile src` followed by `run` (Proofs/SessionBase.lean: reading a source never
   looks at the base context's mode or stack floor, whatever meta blocks it contains; Proofs/VMCtx.lean, generated:
@@ -36,6 +44,7 @@ pinned by the existing suite (`test_meta_stack`), contradicting "sealed" for tha
 import XehModel.Proofs.SessionUnwind
 import XehModel.Proofs.SessionBlock
 import XehModel.Proofs.SessionEval
+import XehModel.Proofs.SessionInline
 
 namespace Xeh.C11
 open Xeh Xeh.Mach Xeh.Compile Xeh.Session Xeh.Session.Sess
@@ -208,6 +217,38 @@ theorem meta_block_closes_clean {s0 s t : Sess} (fuel : Nat) (h0 : s0.m.ctx.mode
     (∃ vs : List Cell, t.m.code = s0.m.code ++ vs.map Mach.loadValueOp) ∧
     hidOf t.m.dict s0.m.dict.length = hidOf s.m.dict s0.m.dict.length :=
   block_close fuel h0 h hbase hnp hc
+
+/-! ### a meta block is its values -/
+
+/-- **`P[#( e #)]` behaves like `P[values of e]`.**  Any session `s` outside a meta block in which a source can be read
+    (`Idle`), recording off, no instruction limit; at token position `i` a word `w` that means the core word `#(` and is
+    not shadowed by a local; following the block (`untilClosed`: until the saved contexts are as deep as at the `#(`
+    again) it closes with `rest` unread in session `t`, and the block is `Clean` (no constant defined, no variable
+    declared, return / loop / builder stacks as found).  Then there are values `vs` with
+    `t.code = s.code ++ literals of vs` such that, wherever the literals sit in their source (`j`), reading
+    `#( … #) rest` from `s` and reading `vs rest` from `s` give the same kind of answer with the same error and
+    sessions that are `Alike` (`AlikeR`: ok/ok, err/err with the same error, …): equal in code, stacks, variables, dictionary, pending flows and contexts, having
+    printed the same text after what the block itself printed. -/
+theorem meta_block_is_its_values (fuel depth : Nat) (s : Sess) (idle : Idle s) (h0 : s.m.ctx.mode ≠ .metaEval)
+    (hlog : s.m.log = none) (hlim : s.m.insnLimit = none)
+    (w : String) (rest0 : List Tok) (i : Nat)
+    (hloc : ((CState.topFun ({ s with lastTok := i } : Sess).visible).bind fun ff => CState.rposition w ff.locals) = none)
+    (hw : s.m.dict.lookup w = some (.native true "#("))
+    (n : Nat) (rest : List Tok) (i' : Nat) (t : Sess)
+    (hblk : untilClosed fuel s.nested.length n rest0 (i + 1) (({ s with lastTok := i } : Sess).contextOpen .metaEval) = .closed rest i' t)
+    (clean : Clean s t) :
+    ∃ vs : List Cell, t.m.code = s.m.code ++ vs.map Mach.loadValueOp ∧
+      ∀ j, AlikeR t.m.out s.m.out (tokens fuel depth (.word w :: rest0) i s) (tokens fuel depth (vs.map Tok.lit ++ rest) j s) := by
+  obtain ⟨vs, hc, hall⟩ := block_inlines fuel depth s idle h0 hlog hlim w rest0 i hloc hw n rest i' t hblk clean
+  exact ⟨vs, hc, fun j => (hall j).spec⟩
+
+/-- the hypotheses are satisfiable: with `#(` and `#)` in the dictionary, the block `#( 7 #)` read from the empty session
+    gets closed, and it is clean -/
+example :
+    let s : Sess := { m := { dict := [("#(", .native true "#("), ("#)", .native true "#)")] } }
+    ∃ rest i' t, untilClosed 5 s.nested.length 3 [.lit (.int 7), .word "#)"] 1 (({ s with lastTok := 0 } : Sess).contextOpen .metaEval) =
+        .closed rest i' t ∧ Clean s t ∧ t.m.code = s.m.code ++ [Mach.loadValueOp (.int 7)] :=
+  ⟨_, _, _, rfl, ⟨rfl, rfl, rfl, rfl, rfl, rfl⟩, rfl⟩
 
 /-! ### `eval` = `compile`, then `run` -/
 
